@@ -42,6 +42,8 @@ def sh(cmd, cwd=ROOT, env=None, timeout=3600, stdin=None, stdout_path=None):
         return p.returncode, out, time.time() - t0
     except subprocess.TimeoutExpired as ex:
         return 124, "TIMEOUT after %ss: %s" % (timeout, cmd), time.time() - t0
+    except OSError as ex:   # e.g. the driver or harness binary does not exist because its build failed
+        return 127, "cannot run %s: %s" % (cmd[0], ex), time.time() - t0
 
 
 class Lock:
